@@ -22,11 +22,14 @@
        (all byte strings); the three chain walks: Reader_*_out_of_fuel_is_a_cycle, and Reader_termination_refuted
        (a CRC-valid file whose user-data chain points to itself: the C hangs; replay in tools/props/RDM.py, class
        crafted_cycle_user_data).
-   (d) not proved: that on a well-formed file rdm_fsr returns the stored samples (see the report).
+   (d) partial: Reader_fsr_loop_window_partial - the copy loop of jls_core_fsr, at byte level, returns the window's samples
+       (Spec.pack of the slice of the stream) PROVIDED jls_core_rd_fsr_data0 delivers the block holding each sample id
+       (hypothesis; its proof from a well-formedness predicate on the INDEX chunks is what is missing).
+   Reader_open also gives rp_fend = the file length.
    Proofs: ReaderProofs.v .. ReaderProofs5.v. *)
 From Coq Require Import NArith ZArith List Bool.
 From JLS Require Import Generated CrcDefs Spec Format WmRaw WmCore WmFsr WriterModel RepairRaw RepairModel BitCopyModel
-  RawReadProofs ReaderModel ReaderProofs ReaderProofs2 ReaderProofs3 ReaderProofs4 ReaderProofs5.
+  FsrPackModel RawReadProofs ReaderModel ReaderProofs ReaderProofs2 ReaderProofs3 ReaderProofs4 ReaderProofs5 ReaderProofs6.
 Import ListNotations.
 Local Open Scope N_scope.
 
@@ -38,7 +41,7 @@ Theorem Reader_open : forall (f : list N) (st : rdm_st), rdm_open f = RdmOpened 
       length (fm_sub (rp_offset (rp_r (rdm_io st))) 32 (rp_file (rdm_io st))) = 32%nat /\
       fm_ch_crc_ok (fm_sub (rp_offset (rp_r (rdm_io st))) 32 (rp_file (rdm_io st))) = true /\
       rp_hdr (rp_r (rdm_io st)) = fm_ch_fields (fm_sub (rp_offset (rp_r (rdm_io st))) 32 (rp_file (rdm_io st))))) /\
-  rdm_tr st = [] /\ rdm_stale st = false.
+  rdm_tr st = [] /\ rdm_stale st = false /\ rp_fend (rp_r (rdm_io st)) = rp_len f.
 Proof. exact rdm_open_inv_flat. Qed.
 Print Assumptions Reader_open.
 
@@ -79,7 +82,7 @@ Theorem Reader_frame : forall (recon : bool -> bool -> Z -> N -> N -> N -> list 
     Forall EV (rdm_tr st) in
   let EXT := fun st st' : rdm_st =>
     (exists l, rdm_tr st' = l ++ rdm_tr st) /\ (rdm_stale st = true -> rdm_stale st' = true) /\
-    (rdm_flt st <> 0 -> rdm_flt st' = rdm_flt st) in
+    (rdm_flt st <> 0 -> rdm_flt st' = rdm_flt st) /\ rp_fend (rp_r (rdm_io st')) = rp_fend (rp_r (rdm_io st)) in
   (forall st id, INV st -> INV (fst (fst (rdm_fsr_length st id))) /\ EXT st (fst (fst (rdm_fsr_length st id)))) /\
   (forall st id start len dst, INV st -> INV (fst (fst (fst (rdm_fsr recon f32_of_f64 st id start len dst)))) /\
                                          EXT st (fst (fst (fst (rdm_fsr recon f32_of_f64 st id start len dst))))) /\
@@ -205,6 +208,59 @@ Theorem Reader_fsr_provenance : forall recon f32_of_f64 (f : list N) (st : rdm_s
                         SIZEOF_payload_header + o + rp_len (rdm_pc_src pc) <= N.of_nat (length (rdm_ev_pay e))) pcs.
 Proof. exact rdm_fsr_prov. Qed.
 Print Assumptions Reader_fsr_provenance.
+
+(* (d) partial.  blocks = the DATA blocks (first sample id, entry count, sample bytes) of one signal with w-bit samples,
+   of the shape Properties_C01_bits.blocks_stream proves for the writer (block k starts at first + k * spd, full except
+   the last, ceil(cnt * w / 8) bytes), holding the sample stream `stream`.  P = any predicate on reader states that
+   ignores the ghost flag / fault code (first hypothesis) such that jls_core_rd_fsr_data0, from a P-state, for a sample
+   id inside a block, returns 0 without reconstruction, flag or fault, in a P-state, with that block's DATA payload in
+   core->buf (second hypothesis: timestamp, entry_count, entry_size_bits = w at offsets 0, 8, 12, the sample bytes
+   from offset 16).  Then the loop that jls_core_fsr runs for the in-range window [start, start + len) (file sample id
+   start + first, fuel S (8 * length dst) as in rdm_fsr) returns 0, raises nothing, and the caller's buffer holds the
+   window: its first len * w bits are the samples' bits, the rest is untouched, and a zeroed buffer of the documented
+   size becomes Spec.pack of the slice - the bytes of Spec.rd_window. *)
+Theorem Reader_fsr_loop_window_partial :
+  forall (recon : bool -> bool -> Z -> N -> N -> N -> list N) (f32_of_f64 : N -> N) (id w : N)
+         (blocks : list (Z * N * list N)) (P : rdm_st -> Prop),
+  (forall st st' : rdm_st, P st ->
+     ((rp_buf (rdm_io st') = rp_buf (rdm_io st) /\ rp_buf_len (rdm_io st') = rp_buf_len (rdm_io st) /\
+       rp_cur (rdm_io st') = rp_cur (rdm_io st) /\ rp_r (rdm_io st') = rp_r (rdm_io st) /\ rdm_tr st' = rdm_tr st /\
+       rdm_c st' = rp_rd_set_io (rdm_c st) (rdm_io st')) /\
+      rdm_len st' = rdm_len st /\ rdm_ick st' = rdm_ick st /\ rdm_ibuf st' = rdm_ibuf st /\ rdm_ilen st' = rdm_ilen st /\
+      rdm_sck st' = rdm_sck st /\ rdm_sbuf st' = rdm_sbuf st /\ rdm_slen st' = rdm_slen st) -> P st') ->
+  (forall (st : rdm_st) (sid ts : Z) (cnt : N) (payload : list N), P st ->
+     fp_find_block blocks sid = Some (ts, cnt, payload) ->
+     exists st' : rdm_st,
+       rdm_rd_fsr_data0 recon f32_of_f64 st id sid = (st', 0, false) /\ P st' /\
+       rdm_stale st' = rdm_stale st /\ rdm_flt st' = rdm_flt st /\
+       (length (rp_payload (rdm_io st')) = N.to_nat (rp_buf_len (rdm_io st')) /\
+        rp_buf_len (rdm_io st') = SIZEOF_payload_header + rp_len payload /\
+        rp_buf_len (rdm_io st') <= JLS_BUF_DEFAULT_SIZE /\
+        fm_i64_of_u64 (fm_dec (fm_sub 0 8 (rp_payload (rdm_io st')))) = ts /\
+        fm_dec (fm_sub OFFSETOF_payload_entry_count 4 (rp_payload (rdm_io st'))) = cnt /\
+        fm_dec (fm_sub OFFSETOF_payload_entry_size_bits 2 (rp_payload (rdm_io st'))) = w /\
+        fm_sub SIZEOF_payload_header (rp_len payload) (rp_payload (rdm_io st')) = payload)) ->
+  (forall (ts : Z) (cnt : N) (p : list N), In (ts, cnt, p) blocks ->
+     (- rdm_two63 <= ts)%Z /\ (ts + Z.of_N cnt < rdm_two63)%Z /\ cnt < rdm_two32 /\ N.of_nat (length p) = (cnt * w + 7) / 8) ->
+  0 < w ->
+  forall (spd : N) (first : Z) (stream : list N) (st : rdm_st) (start len : Z) (dst : list N),
+  P st -> 0 < spd ->
+  (forall (k : nat) (ts : Z) (cnt : N) (p : list N), nth_error blocks k = Some (ts, cnt, p) ->
+     ts = (first + Z.of_nat k * Z.of_N spd)%Z /\ 0 < cnt <= spd /\ ((S k < length blocks)%nat -> cnt = spd) /\
+     N.of_nat (length p) = (cnt * w + 7) / 8 /\ Forall (fun b : N => b < 256) p) ->
+  flat_map (fun '(_, cnt, p) => firstn (N.to_nat (cnt * w)) (bc_bits p)) blocks = flat_map (bits_of (N.to_nat w)) stream ->
+  (0 <= start)%Z -> (0 < len)%Z -> (start + len <= Z.of_nat (length stream))%Z ->
+  Z.to_N len * w <= 8 * N.of_nat (length dst) ->
+  exists (st' : rdm_st) (pcs' : list rdm_piece) (out : list N),
+    rdm_fsr_loop recon f32_of_f64 (S (8 * length dst)) st id w (start + first)%Z len dst 0 [] = (st', 0, out, pcs') /\
+    P st' /\ rdm_stale st' = rdm_stale st /\ rdm_flt st' = rdm_flt st /\ length out = length dst /\
+    firstn (N.to_nat (Z.to_N len * w)) (bc_bits out) =
+      flat_map (bits_of (N.to_nat w)) (firstn (Z.to_nat len) (skipn (Z.to_nat start) stream)) /\
+    skipn (N.to_nat (Z.to_N len * w)) (bc_bits out) = skipn (N.to_nat (Z.to_N len * w)) (bc_bits dst) /\
+    (dst = repeat 0 (N.to_nat ((Z.to_N len * w + 7) / 8)) ->
+     out = pack w (firstn (Z.to_nat len) (skipn (Z.to_nat start) stream))).
+Proof. exact rdm_fsr_loop_window. Qed.
+Print Assumptions Reader_fsr_loop_window_partial.
 
 (* (c) jls_rd_fsr_length, jls_rd_fsr, jls_core_ts_seek never exhaust their fuel: from ANY state (no invariant needed),
    on any bytes, any request, any oracle.  (rdm_fsr takes S (8 * length dst) iterations at most.) *)
